@@ -71,7 +71,7 @@ func c05r1(c *an.Ctx) {
 		}
 		return ""
 	}
-	flow := &an.Flow{Fn: mr, Init: []string{""},
+	flow := &an.Flow{Fn: mr, Inline: an.InlineSamePackage(mr), Init: []string{""},
 		Step: func(st string, in ssa.Instruction) []string {
 			if call, ok := in.(*ssa.Call); ok && an.IsCallTo(call.Common(), terminate) {
 				return []string{addTag(st, "term")}
@@ -184,7 +184,7 @@ func c05r4(c *an.Ctx) {
 		}
 		n += len(writes)
 		c.Analysed(fn)
-		flow := &an.Flow{Fn: fn, Init: []string{"clean"}, Step: func(st string, in ssa.Instruction) []string {
+		flow := &an.Flow{Fn: fn, Inline: an.InlineSamePackage(fn), Init: []string{"clean"}, Step: func(st string, in ssa.Instruction) []string {
 			switch x := in.(type) {
 			case *ssa.Call:
 				for _, wr := range writes {
@@ -503,7 +503,7 @@ func c05r9(c *an.Ctx) {
 					errv = ex
 				}
 			}
-			flow := &an.Flow{Fn: wm, Init: []string{""},
+			flow := &an.Flow{Fn: wm, Inline: an.InlineSamePackage(wm), Init: []string{""},
 				Step: func(st string, in ssa.Instruction) []string {
 					if call, ok := in.(*ssa.Call); ok && an.IsCallTo(call.Common(), terminate) {
 						return []string{addTag(st, "term")}
